@@ -1,7 +1,7 @@
 """Calls into the implementation under test (/repo working tree) and canonicalises outcomes in the
 model's wire vocabulary.  Also encodes inputs for the model runner."""
 from harness import fw
-from harness.oracle import json_to_wire
+from harness.oracle import json_to_wire  # noqa (re-exported)
 
 
 def outcome(f, pr):
